@@ -28,7 +28,7 @@ pub struct CopyCase {
 /// (source, expected stdout)
 pub fn program(c: &CopyCase) -> (String, String) {
     let mut m_main = Mv::new(c.kind, &c.init, c.x, &c.s);
-    let mut src = String::from(DECLS);
+    let mut src = decls_for(c.kind);
     let mut exp = String::new();
     src.push_str(&format!("let data: {} = {}\n", m_main.ty(), m_main.lit()));
     for n in &c.pre {
@@ -129,7 +129,7 @@ impl Prop for TaskCopies {
         "task_copies"
     }
     fn rule(&self) -> &'static str {
-        "one case = a heap value of one of 8 kinds (array, nested array, struct with an array field, tuple holding an array, enum payload, string, option<array>, array<string>) or a closure over an array, mutated by the spawner before the spawn, captured by a task, then mutated on both sides in a generated order; both sides report what they see through shared channels (the channel itself must stay shared); expected output from a harness-side model in which the task owns a deep copy taken at spawn; run at budgets 1000, 1, 2, 5 and generated sequences; non-trivial = a mutation on each side after the spawn; distinct by case"
+        "one case = a heap value of one of 12 kinds (array, nested array, struct with an array field, tuple holding an array, enum payload, string, option<array>, array<string>, option<int>, payload-less variant, variant of a 300-variant enum, struct holding scalar-payload enum objects) or a closure over an array, mutated by the spawner before the spawn, captured by a task, then mutated on both sides in a generated order; both sides report what they see through shared channels (the channel itself must stay shared); expected output from a harness-side model in which the task owns a deep copy taken at spawn; run at budgets 1000, 1, 2, 5 and generated sequences; non-trivial = a mutation on each side after the spawn; distinct by case"
     }
     fn n_cases(&self, tier: Tier) -> u32 {
         tier.pick(1500, 25000)
